@@ -25,7 +25,7 @@ PROPS = {
     "C08": {"theorems": ["C08_tokenizer_is_lexer_then_rewrite", "C08_call_form_is_infix_at_any_nesting", "C08_same_tokens_as_infix_text"], "modes": [{"name": "c08", "quick_n": 800, "thorough_n": 6000, "shard": 120}]},
     "C10": {"theorems": ["C10_deep_binary_application_is_a_homomorphism", "C10_deep_unary_application_is_a_homomorphism", "C10_flat_binary_application_is_a_homomorphism", "C10_flat_unary_application_is_a_homomorphism", "C10_unknown_binary_name_is_error_partial", "C10_unknown_unary_name_is_error_partial", "C10_not_a_unary_operator_is_error_partial", "C10_shortcuts_are_sound_over_the_reals", "C10_is_num_is_sound_on_normal_forms"], "axioms": REAL_AXIOMS, "modes": [{"name": "c10", "quick_n": 400, "thorough_n": 3000, "shard": 40}, {"name": "c10s", "quick_n": 400, "thorough_n": 3000, "shard": 40}]},
     "C11": {"theorems": ["C11_substitution_is_simultaneous", "C11_replacement_evaluated_on_its_own_variables", "C11_named_denotation", "C11_parsed_expressions_qualify", "C11_flat_substitution"], "modes": [{"name": "c11", "quick_n": 400, "thorough_n": 3000, "shard": 40}]},
-    "C12": {"theorems": ["C12_flat_unparse_is_source_text_partial"], "modes": [{"name": "c12", "quick_n": 400, "thorough_n": 3000, "shard": 60}, {"name": "c12d", "quick_n": 150, "thorough_n": 1500, "shard": 20}]},
+    "C12": {"theorems": ["C12_flat_unparse_is_source_text_partial", "C12_deep_unparse_is_the_text_of_its_tokens", "C12_printed_tokens_parse_back", "C12_printed_tokens_parse_back_to_the_same_expression", "C12_parsed_expressions_record_unary_operators", "C12_flat_from_deep_prints_the_deep_text"], "modes": [{"name": "c12", "quick_n": 400, "thorough_n": 3000, "shard": 60}, {"name": "c12d", "quick_n": 150, "thorough_n": 1500, "shard": 20}]},
     "C13": {"theorems": ["C13_extended_name_is_variable", "C13_sign_unary_iff", "C13_numeric_literal", "C13_brace_is_one_var", "C13_longest_operator_name_wins"], "modes": [{"name": "c13", "quick_n": 3, "thorough_n": 12, "shard": 120}]},
     "C15": {"theorems": ["C15_consuming_eq_cloning", "C15_arity"], "modes": [{"name": "c15", "quick_n": 150, "thorough_n": 1500, "shard": 60}]},
     "C05": {"theorems": ["C05_partial_is_the_derivative", "C05_partial_evaluates_to_the_derivative", "C05_parsed_expressions_qualify", "C05_consistent_expressions_qualify", "C05_derivatives_qualify", "C05_rule_names_match_code_partial", "C05_no_rule_for_nondifferentiable_partial", "C05_missing_binary_rule_is_error_partial", "C05_unary_rules_are_derivatives_partial", "C05_binary_rules_are_derivatives_partial"], "axioms": REAL_AXIOMS, "modes": [{"name": "c05", "quick_n": 400, "thorough_n": 3000, "shard": 30}]},
